@@ -55,8 +55,15 @@ var c16Check = register("C16", "c16.string", func(c *c16Case) error {
 	if p != nil {
 		return failf("C16 String panic "+cls+" lang="+strconv.FormatInt(c.N, 10), "Language(%d).String() panicked: %v", c.N, p)
 	}
-	if want := c16Want(c.N); got != want {
+	want := c16Want(c.N)
+	if got != want {
 		return failf("C16 String "+cls+" lang="+strconv.FormatInt(c.N, 10), "Language(%d).String() = %q, want %q", c.N, got, want)
+	}
+	// the returned string must stay what it was when other values are printed afterwards
+	implString(bip39.Language(c.N + 1))
+	implString(bip39.Language(-c.N - 77))
+	if got != want {
+		return failf("C16 String retained "+cls, "the string returned by Language(%d).String() read %q when returned and reads %q after later String() calls", c.N, want, got)
 	}
 	return nil
 })
